@@ -382,6 +382,50 @@ def _must_dealloc(fx, d, cls, short, depth):
     return False, 'a path through %s leaves %s without freeing it' % (d.q, short)
 
 
+def overwrite(run, fx):
+    """OWNFIELD, second half: an owning pointer field is not given a second fresh allocation on a path on which it already received one
+    (in the same function) unless the first was released in between: the first object -- and every table its loader still borrows --
+    would be lost.  (Fields filled once by a read* step after construction are the norm here; what is decided is the double store.)"""
+    from .util import reaches_avoiding
+    fw = field_writes(fx)
+    n = 0
+    for field, ws in sorted(fw.items()):
+        sites = {}
+        for fn, e, kind in ws:
+            if kind != 'direct' or e['k'] == 'Init':
+                continue
+            rhs = e['c'][1] if e.get('c') and len(e['c']) > 1 else None
+            if rhs is None:
+                continue
+            if fn.strip(e['c'][0])['k'] != 'MemberExpr':
+                continue                  # an element of an array-valued field (Locale2Lang's 26 x 26 lists): a different cell each time
+            if any((x['k'] == 'CXXNewExpr' and x.get('nplace', 0) == 0) or (x.get('fq') or '').split('<')[0] in ALLOC_FNS for x in fn.walk(rhs)):
+                if not any((x.get('fq') or '') == 'realloc' for x in fn.walk(rhs)):
+                    sites.setdefault(fn.key, (fn, []))[1].append(e)
+        for key, (fn, es) in sites.items():
+            es = list({e['i']: e for e in es}.values())
+            if len(es) < 2:
+                continue
+            n += 1
+            short = field.split('::')[-1]
+            dl = _dealloc_sites(fn, field, False)
+            bad = None
+            for a in es:
+                for b in es:
+                    if a is b:
+                        continue
+                    if reaches_avoiding(fn, a, b, avoid=dl):
+                        if not any(f[0] in ('this->' + short, short) and f[1] == '==' and f[2] == '0' for f in dom.facts_at(fn, b['i'])):
+                            bad = (a, b)
+            inst = '%s is not allocated twice on one path of %s' % (field.split('graphite2::')[-1], fn.q.split('graphite2::')[-1])
+            if bad:
+                run.violated('OWNFIELD', inst, fn.loc(bad[1]), '%s receives a second fresh allocation (line %s) on a path on which it was already given one (line %s) and not released: '
+                             'the first object is orphaned -- never deleted, and whatever it borrowed is never given back' % (field, bad[1]['ln'], bad[0]['ln']))
+            else:
+                run.held('OWNFIELD', inst, fn.where(), '%d allocation stores, none reachable from another without a release' % len(es))
+    return n
+
+
 # ---------------------------------------------------------------------------------------- OWNLOCAL
 OWNLOCAL_EXCEPTIONS = {
     ('graphite2::GlyphCache::GlyphCache', 'boxes'):
@@ -668,19 +712,27 @@ def opsflow(run, fx):
 def run(run):
     E = ER.setup(run)
     fx = E.fx
-    opsflow(run, fx)
-    wit(run)
-    tablets(run, fx)
+
+    def guarded(name, f):
+        """one rule not recognising a new shape (exit 2 for its instances) must not keep the others from deciding"""
+        try:
+            return f()
+        except AnalysisBroken as ex:
+            run.broken(name, 'engine', str(ex))
+    guarded('TABLETS', lambda: opsflow(run, fx))
+    guarded('WIT', lambda: wit(run))
+    guarded('TABLETS', lambda: tablets(run, fx))
     entries = [e for e in ER.api_entries(E.ir) if e not in ER.ENTRY_LOAD]
     cuts, lazyfn = ER.lazy_cuts(run, E, 'NOCALLBACK')
     reach = E.reachable(entries, cuts)
-    c09.nocallback(run, E, reach, cuts)
-    c09.preload(run, fx)
-    c09.namepreload(run, fx)
-    ownfield(run, fx)
-    ownlocal(run, fx, None)
+    guarded('NOCALLBACK', lambda: c09.nocallback(run, E, reach, cuts))
+    guarded('PRELOAD', lambda: c09.preload(run, fx))
+    guarded('NAMEPRELOAD', lambda: c09.namepreload(run, fx))
+    guarded('OWNFIELD', lambda: ownfield(run, fx))
+    guarded('OWNFIELD', lambda: overwrite(run, fx))
+    guarded('OWNLOCAL', lambda: ownlocal(run, fx, None))
     from . import noescape
-    noescape.check(run, E, 'NOESCAPE')
+    guarded('NOESCAPE', lambda: noescape.check(run, E, 'NOESCAPE'))
     # build-time siblings: code under #ifndef GRAPHITE2_NFILEFACE must uphold the same ownership rules when the macro is set.
     # The AST-only ownership rules are cheap, so the quick tier already evaluates them on that configuration as well
     # (the thorough tier re-runs everything on every configuration anyway).
